@@ -170,22 +170,12 @@ func vxSetPreempt(n int) {}
 func vxRaceOn(on bool)   {}
 func vxSymbolic() bool   { return false }
 
-// vxNativeQuiesce waits until the goroutine count is stable for a while (best effort, native replays only).
+// vxNativeQuiesce: native replays have no scheduler to ask; give the other goroutines ample time to go idle.
 func vxNativeQuiesce() {
-	last, stable := -1, 0
-	for i := 0; i < 2000 && stable < 20; i++ {
+	for i := 0; i < 100; i++ {
 		runtime.Gosched()
-		n := runtime.NumGoroutine()
-		if n == last {
-			stable++
-		} else {
-			stable = 0
-			last = n
-		}
-		if i > 50 {
-			vxSleepMs(1)
-		}
 	}
+	vxSleepMs(60)
 }
 
 func vxAll(c ...bool) bool {
